@@ -329,11 +329,50 @@ fn emit_res_meta(r: &Res<AccountMeta>) -> String {
 }
 
 // ------------------------------------------------------------ C05
+/// instruction data and account data longer than 4 GiB (lazily zeroed allocations): only the first
+/// 255 + 255 bytes are addressable by a config, so every config must resolve exactly as it does
+/// against the first 600 bytes
+fn huge_data_scenario(rep: &mut Report, rng: &mut Rng) {
+    let mut w = gen_world(rng);
+    w.ix = (0..600usize).map(|i| (i as u8).wrapping_mul(13).wrapping_add(1)).collect();
+    for extra in [16usize, 300] {
+        let n = (1usize << 32) + extra;
+        let mut big = vec![0u8; n];
+        for (i, x) in big.iter_mut().take(600).enumerate() {
+            *x = (i as u8).wrapping_mul(13).wrapping_add(1);
+        }
+        let small = big[..600].to_vec();
+        let key0 = w.keys[0];
+        for which in 0..2 {
+            // which == 0: the instruction data is huge; which == 1: the data of account 0 is
+            let cfgs: Vec<ExtraAccountMeta> = (0..40).map(|_| gen_extra(rng, &w, 1, &[600])).collect();
+            for e in cfgs.iter() {
+                let (rb, rs) = if which == 0 {
+                    let accts: Vec<(Pubkey, Option<Vec<u8>>)> = vec![(key0, Some(small.clone()))];
+                    (real_resolve(e, &big, &w.pid, &accts), real_resolve(e, &small, &w.pid, &accts))
+                } else {
+                    let rb = catch(|| e.resolve(&small, &w.pid, |i| if i == 0 { Some((&key0, Some(&big[..]))) } else { None }));
+                    let rs = catch(|| e.resolve(&small, &w.pid, |i| if i == 0 { Some((&key0, Some(&small[..]))) } else { None }));
+                    (rb, rs)
+                };
+                rep.monitor_runs += 1;
+                rep.count("data:>4GiB");
+                if rb != rs || rb.is_panic() {
+                    rep.violate("huge-data", "a config resolves differently against data longer than 4 GiB than against its first 600 bytes (only indices below 510 are addressable)",
+                        serde_json::json!({"data_length": format!("2^32 + {}", extra), "which": if which == 0 { "instruction data" } else { "data of account 0" },
+                            "config": emit::hex(bytemuck::bytes_of(e)), "with_huge_data": format!("{:?}", rb), "with_first_600_bytes": format!("{:?}", rs)}).to_string());
+                }
+            }
+        }
+    }
+}
+
 pub fn run_c05(ctx: &Ctx) -> Report {
     let mut rep = Report::new("C05");
     rep.corr_module = "Resolution".into();
-    rep.expect_classes(&["resolve:ok:fixed", "resolve:ok:pda", "resolve:ok:external-pda", "resolve:ok:key-data", "resolve:err", "kind:unknown", "pda:crate", "pda:too-long", "ctor:seeds", "ctor:external", "ctor:pubkey", "ctor:key-data", "accounts:>100", "data:>=64KiB", "resolve:low-canonical-bump", "resolve:same-bytes-other-cut"]);
+    rep.expect_classes(&["resolve:ok:fixed", "resolve:ok:pda", "resolve:ok:external-pda", "resolve:ok:key-data", "resolve:err", "kind:unknown", "pda:crate", "pda:too-long", "ctor:seeds", "ctor:external", "ctor:pubkey", "ctor:key-data", "accounts:>100", "data:>=64KiB", "resolve:low-canonical-bump", "resolve:same-bytes-other-cut", "data:>4GiB"]);
     let mut rng = Rng::new(ctx.seed.wrapping_mul(211).wrapping_add(5));
+    huge_data_scenario(&mut rep, &mut rng);
     // (b) the PDA derivation itself: model vs solana-pubkey
     let npda = ctx.scale(60, 600);
     for k in 0..npda {
@@ -1123,6 +1162,8 @@ fn rand_extra(rng: &mut Rng) -> ExtraAccountMeta {
         0 => {} // all zero: the system program, read-only, not a signer
         1 => { b[0] = 1; b[1] = 3; b[2] = rng.below(4) as u8; } // a short-seed PDA config: zero from byte 3 on
         2 => { for x in b.iter_mut() { *x = 0xff; } }
+        // one of three fixed addresses with independent flags: lists then name a key twice with different privileges
+        3 => { let k = rng.range(1, 3) as u8; for x in b[1..33].iter_mut() { *x = k; } b[33] = *rng.pick(&[0u8, 1, 1, 2]); b[34] = *rng.pick(&[0u8, 1, 0, 255]); }
         _ => { for x in b.iter_mut() { *x = rng.byte(); } }
     }
     raw_extra(&b)
